@@ -97,7 +97,13 @@ fn x_utils() {
             *p = Rgba([r.next() as u8, r.next() as u8, r.next() as u8, r.next() as u8]);
         }
         st.case(&(w, h, img.as_raw().clone()), true);
-        let out = extrude_border(img.clone());
+        let out = match std::panic::catch_unwind(|| extrude_border(img.clone())) {
+            Ok(o) => o,
+            Err(_) => {
+                st.fail(format!("extrude_border panics on a {}x{} image", w, h), None);
+                continue;
+            }
+        };
         if out.dimensions() != (w + 2, h + 2) {
             st.fail(format!("extrude_border {}x{} -> {:?}", w, h, out.dimensions()), None);
             continue;
@@ -114,7 +120,7 @@ fn x_utils() {
     }
     // palette mapper
     for i in 0..budget(200, 2000) {
-        let first = *r.pick(&[0u32, 0, 1, 250, 254, 300]);
+        let first = *r.pick(&[0u32, 0, 1, 250, 254, 256, 300]);
         let n = r.range(1, 12) as u32;
         let few: Vec<[u8; 3]> = (0..4).map(|_| [r.u8(), r.u8(), r.u8()]).collect();
         let entries: Vec<PalEntry> = (0..n).map(|k| {
@@ -158,6 +164,11 @@ fn x_utils() {
                 let ok = occ.iter().any(|&i| i == got as u32);
                 if !ok {
                     st.fail(format!("lookup({:?}) = {} but the colour occurs at indices {:?}", q, got, occ), None);
+                }
+            } else if occ.iter().all(|&i| i >= 256) {
+                // no occurrence below 256: "otherwise the failure index" (never a truncated index)
+                if got != failure {
+                    st.fail(format!("lookup({:?}) = {} but the colour occurs only at indices {:?} (>= 256), expected failure index {}", q, got, occ, failure), None);
                 }
             }
         }
